@@ -25,6 +25,7 @@ from .geometry_ops import (
     OrientationT,
     ROTATION_CATALOGUE,
     WORLD,
+    _clamp,
     _close,
     _f3,
     apply3,
@@ -177,8 +178,7 @@ def register_point_branch(reg):
     def setup_a(I, env):
         eng = I.eng
         WORLD.clear()
-        oriented = eng.choose(2, "oriented viewer") == 1
-        tkind = ["Vector", "Point"][eng.choose(2, "target kind")]
+        oriented, tkind = [(False, "Vector"), (False, "Point"), (True, "Vector")][eng.choose(3, "viewer / target kind")]
         viewer_inputs(I, env, oriented, tkind)
         eng.input_syms.append(("case", C.Const(None), f"{'oriented' if oriented else 'unoriented'}/{tkind}"))
 
@@ -232,7 +232,7 @@ def register_point_branch(reg):
 
     # ---------------------------------------------------------------- B. occluders only ever subtract: exact characterisation + monotonicity
     nameB = "visibility.canSee[point,occluders]"
-    SHAPES = [(0,), (1,), (2,), (0, 1), (1, 0), (1, 1)]  # hits per occluder
+    SHAPES = [(0,), (1,), (2,), (1, 1)]  # hits of the candidate ray on each occluder
 
     def setup_b(I, env):
         eng = I.eng
@@ -337,8 +337,8 @@ def _volume_f(p, o, D, h, v, t):
 
 
 def _viewer_tries(inputs):
-    D = float(inputs.get("visibleDistance", 50.0)) or 50.0
-    h, v = float(inputs.get("viewAngles.0", 0.5)), float(inputs.get("viewAngles.1", 0.5))
+    D = _clamp(float(inputs.get("visibleDistance", 50.0)) or 50.0, 1e-3, 1e5)
+    h, v = _clamp(inputs.get("viewAngles.0", 0.5), 0, math.tau), _clamp(inputs.get("viewAngles.1", 0.5), 0, math.pi)
     p0, t0 = _f3(inputs, "position", [10, 0, 0]), _f3(inputs, "target", inputs.get("target.position", [0, 0, 0]))
     return [(p0, t0, D, h, v), ([10.0, 0.0, 0.0], [0.0, 0.0, 0.0], 50.0, math.radians(30), math.radians(30)), ([3.0, -4.0, 2.0], [3.0, 6.0, 2.5], 50.0, math.radians(40), math.radians(40))]
 
